@@ -174,6 +174,34 @@ def run(ctx):
         ctx.breakage("translation", "validator extraction failed (d42/validation/_validator.py no longer consists of the "
                      "recognised idioms): " + msg)
     runner.prove(ctx, MODULE, THEOREMS, FILES)
+    # a short directed SEQUENCE first (accept-everything members next to failing siblings, each pair several times in a row):
+    # an answer that depends on what was validated before must show here, before the bulk — a validator that accumulates state
+    # makes the bulk run quadratic, so a violation found here ends the search
+    from .. import hostile
+    pre = hostile.accept_all_member_cases()
+    import signal
+
+    class _Stuck(BaseException):
+        pass
+
+    def _alarm(signum, frame):
+        raise _Stuck()
+    old = signal.signal(signal.SIGALRM, _alarm)
+    try:
+        for c in pre:
+            signal.setitimer(signal.ITIMER_REAL, 20.0)      # "returns a result": a call that never returns does not
+            try:
+                valcorr.run_real(c)
+                oracle(ctx, [c])
+            except _Stuck:
+                ctx.violation("validate / validate_or_fail did not return within 20 s (after the calls made before it in this "
+                              "process)", schema=safe_repr(c.schema), value=safe_repr(c.value), position_in_sequence=pre.index(c))
+            finally:
+                signal.setitimer(signal.ITIMER_REAL, 0)
+            if ctx.violations:
+                return
+    finally:
+        signal.signal(signal.SIGALRM, old)
     n = ctx.n(60, 400)
     cases = []
     for s, w in valcases.scalar_corpus() + valcases.schema_batch(ctx, n, customs=True):
